@@ -156,3 +156,11 @@ package fai
 //@   at loop 0 back ghost gnamed = rec.Name != ""
 //@   loop 0 invariant @length (ghdr >= 0 && gclean) ==> rec.Length == gsum
 //@   loop 0 invariant @named gnamed == (rec.Name != "")
+// BasesPerLine: the number of bases on the first sequence line of the record,
+// that is, the trimmed length of that line (ghost gbpl: zero until the first
+// non-blank line after the header). Clean input as for Length.
+//@   ghost gbpl int
+//@   at entry ghost gbpl = 0
+//@   at stmt "b := bytes.TrimSpace(sc.Bytes())" ghost gbpl = ite(gbpl == 0, len(ret), gbpl)
+//@   at stmt "lenID := bytes.IndexAny(b, " \t")" ghost gbpl = 0
+//@   loop 0 invariant @bases (rec.Length == 0 ==> rec.BasesPerLine == 0) && ((ghdr >= 0 && gclean) ==> rec.BasesPerLine == gbpl)
